@@ -779,7 +779,7 @@ var _ = syscall.EIO
 func TestC01(t *testing.T) {
 	hx.Main(t, hx.Prop{
 		ID:   "C01",
-		Rule: "each run builds an eStargz blob (gzip stored/compressed, zstd:chunked; chunk 8/17/64; min-chunk-size; prioritized files) from a drawn tar and lets a Byzantine registry serve one alteration of it: none (control), bit flip in payload / TOC / footer, truncation, two members swapped, a member replaced by a valid gzip member with a different payload (CRC repaired), the same plus a re-serialised TOC whose digests match the altered payload, or a byte changed in a file of the fscache / httpcache directory between reads; 1-3 mounter tasks then run 1-3 mount attempts each on the (cached) layer: Resolve, start Prefetch/BackgroundFetch concurrently, decide Verify(pinned digest) / Verify(other digest) / SkipVerify (a third of the runs allow it), then lookups and reads incl. warm re-reads, passthrough on/off, both metadata stores, memory/directory caches. non-trivial = altered blob or cache and at least one verified read attempt or failed mount; distinct = schedule hash x configuration",
+		Rule: "each run builds an eStargz blob (gzip stored/compressed, zstd:chunked; chunk 8/17/64; min-chunk-size; prioritized files) from a drawn tar and lets a Byzantine registry serve one alteration of it: none (control), bit flip in payload / TOC / footer, truncation, two members swapped, a member replaced by a valid gzip member with a different payload (CRC repaired), the same plus a re-serialised TOC whose digests match the altered payload, or a byte changed in a file of the fscache / httpcache directory between reads; 1-3 mounter tasks then run 1-3 mount attempts each on the (cached) layer: Resolve, start Prefetch/BackgroundFetch concurrently, decide Verify(pinned digest) / Verify(other digest) / SkipVerify (a third of the runs allow it), then lookups and reads incl. warm re-reads, passthrough on/off, both metadata stores, memory/directory caches. In a third of the altered runs the registry is honest until the first verified mount and serves the altered blob only from then on (late alteration). A quarter of the runs is the 'daemon' campaign through the real filesystem (fs/fs.go Mount): an image of 2-3 layers, one of them served altered (bit flip in payload or TOC region, or an 'evil twin': another valid eStargz blob of the same tree with other contents), from the start or late; 1-3 mounter tasks mount with labels carrying the right TOC digest, the right digest plus the skip-verify label, another digest, only the skip-verify label, or nothing, under drawn allow_no_verification / disable_verification; a mount with a digest other than the TOC's, a mount without digest where the configuration does not allow it, and a mount pinned to the right digest while the registry serves the evil twin from the start must fail; reads through a mount made with the pinned digest return the original bytes or an error. non-trivial = altered blob or cache and at least one verified read attempt or failed mount; distinct = schedule hash x configuration",
 		Run:  run,
 		HangIsViolation: true,
 		Components: map[string]string{"fs/layer, fs/reader (VerifiableReader), fs/remote, cache, task": "real (instrumented copy)", "metadata/memory, db store on bolt": "real", "estargz/zstdchunked parsers": "real", "registry": "stub: honest transport, altered bytes", "kernel FUSE": "stub (node interfaces; passthrough emulated by pread)"},
